@@ -96,6 +96,7 @@ fn main() {
         std::process::exit(replay_file(&ctx, &r));
     }
 
+    common::start_watchdog(&ctx);
     let (level, out) = match prop.as_str() {
         "C01" => ("fault_enumeration", props::c01::run(&ctx)),
         "C02" => ("fault_enumeration", props::c02::run(&ctx)),
@@ -107,7 +108,7 @@ fn main() {
         "C08" => ("fault_enumeration", props::c08::run(&ctx)),
         "C09" => ("model_checking", props::c09::run(&ctx)),
         "C10" => ("model_checking", props::c10::run(&ctx)),
-        "C11" => ("model_checking", exhaust::wire::run(&ctx)),
+        "C11" => ("model_checking", props::c11::run(&ctx)),
         "C12" => ("fault_enumeration", props::sockets::c12(&ctx)),
         "C13" => ("fault_enumeration", props::sockets::c13(&ctx)),
         "C14" => ("model_checking", props::c14::run(&ctx)),
